@@ -46,6 +46,10 @@ pub struct Case {
     /// expiry regime: votes live for 80 ms of REAL time (IpVote reads std::time::Instant)
     #[serde(default)]
     pub expiry: bool,
+    /// the local record is padded to exactly 300 bytes and advertises UDP port 80 (one byte shorter in
+    /// the record than the candidates' ports): the voted address does not fit into the record
+    #[serde(default)]
+    pub tight_record: bool,
 }
 
 pub const SHORT_VOTE_MS: u64 = 80;
@@ -72,9 +76,14 @@ async fn run(case: &Case, rep: &mut CaseReport) -> Option<(String, String)> {
         enr_peer_update_min: Some(m),
         vote_duration: Some(if case.expiry { Duration::from_millis(SHORT_VOTE_MS) } else { Duration::from_secs(600) }),
         ping_interval: Some(Duration::from_secs(10)),
+        local_record_size: if case.tight_record { Some(300) } else { None },
+        local_port4: if case.tight_record { Some(80) } else { None },
         ..Default::default()
     })
     .await;
+    if case.tight_record {
+        rep.class(format!("local-record-of-{}-bytes", s.d.local_enr().size()));
+    }
     let all_eligible = case.first_incoming as usize >= nv;
     // voters become table members
     let mut outstanding: HashMap<usize, (RequestId, NodeContact)> = HashMap::new();
@@ -326,8 +335,8 @@ impl Property for C17 {
             1 => (0u8..24).prop_map(|voter| Step::Fail { voter }),
             1 => Just(Step::EventBacklog),
         ];
-        let free = (any::<bool>(), 2u8..=7, prop_oneof![2 => 3u8..=14, 1 => 12u8..=24], prop_oneof![3 => Just(99u8), 1 => 0u8..14], 2u8..=4, proptest::collection::vec(step, 1..70))
-            .prop_map(|(dual, min, n_voters, first_incoming, n_cands, steps)| Case { dual, min, n_voters, first_incoming, n_cands, steps, expiry: false });
+        let free = (any::<bool>(), 2u8..=7, prop_oneof![2 => 3u8..=14, 1 => 12u8..=24], prop_oneof![3 => Just(99u8), 1 => 0u8..14], 2u8..=4, proptest::collection::vec(step, 1..70), prop_oneof![12 => Just(false), 1 => Just(true)])
+            .prop_map(|(dual, min, n_voters, first_incoming, n_cands, steps, tight_record)| Case { dual, min, n_voters, first_incoming, n_cands, steps, expiry: false, tight_record });
         // expiry regime: some voters name an address, real time passes until those votes have
         // expired, then further voters name it (and the early ones may vote again in a new ping round)
         let estep = prop_oneof![
@@ -343,7 +352,7 @@ impl Property for C17 {
                 steps.push(Step::Pong { voter: v, cand: 0 });
             }
             steps.extend(tail);
-            Case { dual, min, n_voters: 8, first_incoming: 99, n_cands: 2, steps, expiry: true }
+            Case { dual, min, n_voters: 8, first_incoming: 99, n_cands: 2, steps, expiry: true, tight_record: false }
         });
         // dual stack: the peers that named an IPv6 address let that vote expire and vote on the IPv4
         // address in a later round; then one further peer names the IPv6 address
@@ -359,7 +368,7 @@ impl Property for C17 {
             steps.push(Step::Nap);
             steps.push(Step::Pong { voter: min - 1, cand: 1 });
             steps.extend(tail);
-            Case { dual: true, min, n_voters: 8, first_incoming: 99, n_cands: 2, steps, expiry: true }
+            Case { dual: true, min, n_voters: 8, first_incoming: 99, n_cands: 2, steps, expiry: true, tight_record: false }
         });
         prop_oneof![80 => free, 2 => expiry, 1 => expiry_dual].boxed()
     }
